@@ -1,4 +1,5 @@
 """C01 — cross-format value fidelity (structural necessary conditions), and C06's single clause."""
+import re
 from engine import rule, AnchorLost
 from model import Super, PathSens, fn_of, trace, strace, is_place, site
 import common
@@ -512,3 +513,63 @@ def r06_1(ctx):
     ep = common.input_entry_points(ctx.facts)["json"]
     ctors = [fn_of(t)["def"] for _, _, t in Super(lib, ep, depth=2).calls() if (fn_of(t) or {}).get("crate") == "serde_json" and "Deserializer" in fn_of(t)["def"] and (fn_of(t)["name"].startswith("from_") or fn_of(t)["name"] == "new")]
     ctx.ob("json-reader-is-serde_json", len(ctors) >= 2, site(ep), f"JSON input is parsed by {ctors}")
+
+
+def _same_receiver(b, a1, a2):
+    t1, t2 = trace(b, a1, passthrough_extra=("std::io::Read::by_ref",)), trace(b, a2, passthrough_extra=("std::io::Read::by_ref",))
+    key = lambda t_: (t_.origin[0], t_.origin[1] if t_.origin and len(t_.origin) > 1 and not isinstance(t_.origin[1], dict) else None, tuple(x[1] for x in t_.steps if x[0] == "field"))
+    return bool(t1.origin and t2.origin and t1.origin[0] in ("arg", "call") and key(t1) == key(t2))
+
+
+@rule("R06.2", 1, "an exact-size read never turns a short input into an error: `read_exact` on an input source is made only on an in-memory cursor / slice, behind a `fill_buf` on the same source that showed data, or for bytes a prefix look-ahead has just shown to be there (so xt's own shortest outputs, `7\\n`, `[]`, re-read from a pipe exactly as from a file)", ["C06", "C02"])
+def r06_2(ctx):
+    lib = ctx.lib
+    n = 0
+    for b in lib.bodies:
+        k = 0
+        for bb, t in b.calls():
+            f = fn_of(t) or {}
+            if not (f.get("trait") == "std::io::Read" and f.get("name") == "read_exact" and len(t["args"]) >= 2):
+                continue
+            n += 1
+            st = str(f.get("self_ty") or "")
+            how = None
+            if st.startswith("std::io::Cursor<") or st.lstrip("&").replace("mut ", "").startswith("[u8]") or st in ("&[u8]",):
+                how = f"the receiver is in memory ({st}): what is there is known"
+            if how is None:
+                for fb, ft in b.calls():
+                    ff = fn_of(ft) or {}
+                    if ff.get("name") == "fill_buf" and ff.get("trait") == "std::io::BufRead" and fb != bb and b.dominates(fb, bb) and _same_receiver(b, ft["args"][0], t["args"][0]):
+                        how = "a fill_buf on the same source comes first: the read is made only when data has arrived (a unit cut short by the end of input is an error of the input)"
+                        break
+            if how is None:
+                # `if !self.prefix(N)?.starts_with(MARK) { return }` .. `r.read_exact(&mut [0; N])`: the bytes are captured
+                # the size of the request: `&mut [0; N]` / a `[u8; N]` local
+                at = trace(b, t["args"][1])
+                tys = [str(t["args"][1].get("p", {}).get("ty", ""))]
+                if at.origin and at.origin[0] in ("rvalue", "agg") and isinstance(at.origin[1], dict):
+                    tys.append(str(at.origin[1].get("p", {}).get("ty", "")))
+                mm = re.search(r"\[u8; (\d+)\]", " ".join(tys))
+                size = int(mm.group(1)) if mm else None
+                for sb, stt in b.calls():
+                    sf = fn_of(stt) or {}
+                    if sf.get("name") == "starts_with" and len(stt["args"]) == 2 and sb != bb:
+                        nt = trace(b, stt["args"][1])
+                        nlen = None
+                        if nt.origin and nt.origin[0] == "const":
+                            dec = nt.origin[1].get("decoded")
+                            if isinstance(dec, dict) and isinstance(dec.get("seq"), list):
+                                nlen = len(dec["seq"])
+                        ht = trace(b, stt["args"][0], passthrough_extra=("std::ops::Try::branch", "std::ops::Deref::deref"))
+                        from_prefix = bool(ht.origin and ht.origin[0] == "call" and (fn_of(ht.origin[2]) or {}).get("name") == "prefix")
+                        sw = b.blocks[stt["target"]]["term"] if stt.get("target") is not None else None
+                        if not (from_prefix and nlen is not None and size is not None and size <= nlen and sw and sw["k"] == "switch"):
+                            continue
+                        # the read is reached only on the `true` edge of the test
+                        false_t = [x for v, x in sw["targets"] if v == 0]
+                        if false_t and bb not in b.reachable_from(0, removed_edges=[(stt["target"], sw["otherwise"])]):
+                            how = f"reached only when a prefix look-ahead starts with a {nlen}-byte mark: those {size} byte(s) are already captured"
+                            break
+            ctx.ob(f"read_exact:{b.name}:{k}", how is not None, site(b, bb), how or f"`read_exact` on `{st}` with nothing showing that the bytes are there: an input shorter than the request fails with \"failed to fill whole buffer\" from a reader, where the same bytes in memory translate")
+            k += 1
+    ctx.ob("read_exact-sites", True, "lib", f"{n} read_exact call(s) in the library examined", trivial=n == 0)
